@@ -107,7 +107,10 @@ META = {
             'exception that leaves run_tasks (uptodate callable raising; KeyboardInterrupt / SystemExit from an action, '
             'serial); 35% of the json cases have printing actions at verbosity 2 (global or per task); 30% of the json cases write to an '
             'output stream that only encodes ascii / latin-1 while actions print non-ASCII text; 30% of the tasks that fail '
-            'by return value fail through a cmd-action killed by SIGKILL / SIGTERM instead; exhaustive tier: every outcome assignment of '
+            'by return value fail through a cmd-action killed by SIGKILL / SIGTERM instead; wave 4: --failure-verbosity 0/1/2 (30%), -v N on the command line (20%), DOIT_CONFIG / per-task verbosity also for the '
+            'console family, custom title / title_with_actions / title returning a number (15% of the tasks), --outfile (15%), '
+            'reporter through a [REPORTER] plugin section + -r (12%), `actions` rejected only at execution time (4%), values '
+            'the DB codec cannot encode (3%), runlib calc_first tasks (p_calc_then_fail 0.15); exhaustive tier: every outcome assignment of '
             'small fixed graphs x --continue x reporter, and every completion order of small thread cases; '
             'non-trivial = something got a final report and the case has an edge or a non-success outcome; distinct = '
             'distinct rendered case + reporter + schedule',
@@ -120,6 +123,30 @@ META = {
     'models': ['M1'],
 }
 
+
+
+def _only(witness, allowed):
+    failed = set(witness.get('failed_monitors') or [])
+    return bool(failed) and failed <= set(allowed)
+
+
+def sig_json_started_without_result(witness):
+    """SIGNATURE of the open finding json-started-without-result: json reporter; nothing planted that leaves run_tasks;
+    the run ended (reported runtime error from a lazily invalid `actions`, or a dependency cycle found while a task was
+    in flight) with a task that was announced (execute_task) but has no final report, and JsonReporter.complete_run
+    raised the TypeError of `_finished_on - _started_on` (it is in the problems list or in the traceback on stderr);
+    the only failed monitors are C19_json and C19_exit"""
+    if witness.get('reporter') != 'json' or not _only(witness, ['C19_json', 'C19_exit']) or witness.get('aborted'):
+        return False
+    probs = ' '.join((witness.get('detail') or {}).get('json_problems') or [])
+    if 'complete_run raised TypeError' not in probs and '_finished_on - self._started_on' not in (witness.get('stderr') or ''):
+        return False
+    if witness.get('exit') != 3:
+        return False
+    tr = witness.get('trace') or []
+    announced = set(e[1] for e in tr if e[0] == 'execute')
+    reported = set(e[1] for e in tr if e[0] in runlib.TERMINAL)
+    return bool(announced - reported)
 
 
 SIGNATURES = {}
@@ -135,6 +162,8 @@ FAILCLS = {'TaskFailed': 'failed', 'TaskError': 'error', 'UnmetDependency': 'unm
 # ======================================================================================================
 
 _TEE = {}
+PLUGIN_MOD = 'c19_reporter_plugin'
+OUTFILE = 'report.out'
 _CASE_OPTS = {}      # options of the case being run that the tee needs (out_encoding)
 
 
@@ -160,6 +189,11 @@ def tee_class(kind):
                 # a stdout whose encoding cannot represent every character (LANG=C, PYTHONIOENCODING=ascii, latin-1 console)
                 self._v_bytes = io.BytesIO()
                 self._v_buf = io.TextIOWrapper(self._v_bytes, encoding=enc, errors='strict', newline='')
+            elif _CASE_OPTS.get('outfile'):
+                # --outfile: the stream doit opened for the file named on the command line is used as it is
+                self._v_bytes = None
+                self._v_buf = outstream
+                _LAST['outstream_name'] = getattr(outstream, 'name', None)
             else:
                 self._v_bytes = None
                 self._v_buf = io.StringIO()
@@ -170,6 +204,13 @@ def tee_class(kind):
             base.__init__(self, self._v_buf, options)
 
         def _v_text(self):
+            if _CASE_OPTS.get('outfile') and not _CASE_OPTS.get('out_encoding'):
+                try:
+                    self._v_buf.flush()
+                    with open(_CASE_OPTS['outfile'], encoding='utf-8') as fh:
+                        return fh.read()
+                except Exception as ex:  # noqa
+                    return '<<outfile not readable: %s>>' % type(ex).__name__
             if self._v_bytes is None:
                 return self._v_buf.getvalue()
             try:
@@ -239,6 +280,13 @@ def tee_class(kind):
                 _LAST['stray_err'] = sys.stderr.getvalue() if hasattr(sys.stderr, 'getvalue') else ''
     Tee.__name__ = 'Tee_' + kind.replace('-', '_')
     _TEE[kind] = Tee
+    # reachable as a plugin: `[REPORTER] c19rep = c19_reporter_plugin:Tee_<kind>` in doit.cfg + `-r c19rep`
+    mod = sys.modules.get(PLUGIN_MOD)
+    if mod is None:
+        import types
+        mod = types.ModuleType(PLUGIN_MOD)
+        sys.modules[PLUGIN_MOD] = mod
+    setattr(mod, Tee.__name__, Tee)
     return Tee
 
 
@@ -257,7 +305,13 @@ def _wrap_task_dict(d, t, n, rec):
       prints: True | 'unicode'    the action writes to stdout and stderr (non-ASCII text for 'unicode') before doing what
                                   runlib's action does
       sigkill: 'KILL' | 'TERM'    (tasks whose outcome is 'failed') the failure is a cmd-action dying from that signal
-      verbosity: 0|1|2            the task's own `verbosity`"""
+      verbosity: 0|1|2            the task's own `verbosity`
+      title: 'custom' | 'with_actions' | 'nonstr'    the task's `title` callable (a function of the task / doit.tools.
+                                  title_with_actions / a function returning a number)
+      lazy_bad: 'int' | 'tuple4'  `actions` holds an element doit rejects only when the action objects are created, i.e.
+                                  inside the runner at execution time (InvalidTask -> runtime_error, run aborted, exit 2)
+      bad_values: 'set' | 'bytes' (tasks whose outcome is 'saveerr') the actions succeed and return a dict with a value the DB
+                                  codec cannot encode: save_success fails, the task is a DependencyError failure (model: saveErr)"""
     x = _extras(t)
     if not x or 'actions' not in d:
         return d
@@ -284,14 +338,66 @@ def _wrap_task_dict(d, t, n, rec):
             sys.stderr.write('stderr of task %d%s\n' % (n, extra))
             return orig()
         act_print.__name__ = 'act_print_%d' % n
-        d['actions'] = [act_print]
+        d['actions'] = [act_print] + list(d['actions'][1:])
     if x.get('sigkill') and t['outcome'] == 'failed':
         # the task fails because its last action, a cmd-action, dies from a signal: the python-action (start / end marks,
         # targets) succeeds, then the shell that doit starts for the command kills itself (negative returncode)
-        d['actions'] = [runlib._make_action(rec, n, dict(t, outcome='ok', calc_res=None)), 'kill -%s $$' % x['sigkill']]
+        # A calc_dep task that delivers something is a runlib 'calc_first' task then (its first action returns the calc
+        # values, which doit hands on although the task fails: Run.deliverF); otherwise the helper returns no calc values.
+        if t.get('calc_first'):
+            acts = runlib._make_actions(rec, n, dict(t, outcome='ok'))
+        else:
+            acts = [runlib._make_action(rec, n, dict(t, outcome='ok', calc_res=None))]
+        d['actions'] = acts + ['kill -%s $$' % x['sigkill']]
+    if x.get('bad_values') and t['outcome'] == 'saveerr' and not x.get('base_exc'):
+        # one realisation of the run model's outcome `saveErr`: the actions succeed, save_success cannot encode the values
+        d['actions'] = runlib._make_actions(rec, n, dict(t, outcome='ok'))
+        inner = d['actions'][-1]
+        bad = {1, 2} if x['bad_values'] == 'set' else b'x'
+
+        def act_badvals():
+            r = inner()
+            if isinstance(r, dict):
+                r = dict(r, unsaveable=bad)
+            return r
+        act_badvals.__name__ = 'act_badvals_%d' % n
+        d['actions'] = list(d['actions'][:-1]) + [act_badvals]
+    if x.get('lazy_bad'):
+        d['actions'] = [3] if x['lazy_bad'] == 'int' else [(orig, [], {}, 1)]
     if x.get('verbosity') is not None:
         d['verbosity'] = x['verbosity']
+    if x.get('title') == 'custom':
+        d['title'] = lambda task: 'T<%s>' % task.name
+    elif x.get('title') == 'nonstr':
+        d['title'] = lambda task, n=n: 1000 + n
+    elif x.get('title') == 'with_actions':
+        from doit.tools import title_with_actions
+        d['title'] = title_with_actions
     return d
+
+
+def title_lookup(case):
+    """text printed by a console reporter for a task -> task id (what `task.title()` must give for each task)"""
+    exact, prefix = {}, {}
+    for n, t in enumerate(case['tasks']):
+        k = _extras(t).get('title') if t['kind'] != 'group' else None
+        if k == 'custom':
+            exact['T<%s>' % t['name']] = n
+        elif k == 'nonstr':
+            exact[str(1000 + n)] = n
+        elif k == 'with_actions':
+            prefix[t['name'] + ' => '] = n
+        else:
+            exact[t['name']] = n
+
+    def look(text):
+        if text in exact:
+            return exact[text]
+        for pre, n in prefix.items():
+            if text.startswith(pre):
+                return n
+        return -1
+    return look
 
 
 def run_impl19(case, keep_raw=True):
@@ -302,7 +408,14 @@ def run_impl19(case, keep_raw=True):
 
     def build(c, rec):
         ns = orig(c, rec)
-        ns['DOIT_CONFIG']['reporter'] = tee_class(kind)
+        cls = tee_class(kind)
+        if c.get('plugin'):
+            # the reporter comes from a plugin section of doit.cfg and is chosen with `-r` on the command line
+            del ns['DOIT_CONFIG']['reporter']
+            with open('doit.cfg', 'w') as fh:
+                fh.write('[REPORTER]\nc19rep = %s:%s\n' % (PLUGIN_MOD, cls.__name__))
+        else:
+            ns['DOIT_CONFIG']['reporter'] = cls
         if c.get('verbosity') is not None:
             ns['DOIT_CONFIG']['verbosity'] = c['verbosity']
         if any(_extras(t) for t in c['tasks']):
@@ -324,15 +437,33 @@ def run_impl19(case, keep_raw=True):
                     yield d
             ns['task_gen'] = task_gen
         return ns
+    orig_argv = runlib.argv_of
+
+    def argv(c):
+        a = orig_argv(c)
+        extra = []
+        if c.get('plugin'):
+            extra += ['-r', 'c19rep']
+        if c.get('fail_verb') is not None:
+            extra += ['--failure-verbosity', str(c['fail_verb'])]
+        if c.get('cli_verbosity') is not None:
+            extra += ['-v', str(c['cli_verbosity'])]
+        if c.get('outfile'):
+            extra += ['-o', OUTFILE]
+        return a[:1] + extra + a[1:]
     runlib.build_namespace = build
+    runlib.argv_of = argv
     _LAST.clear()
     _CASE_OPTS.clear()
     if case.get('out_encoding'):
         _CASE_OPTS['out_encoding'] = case['out_encoding']
+    if case.get('outfile'):
+        _CASE_OPTS['outfile'] = OUTFILE
     try:
         obs = runlib.run_impl(case, keep_raw=keep_raw)
     finally:
         runlib.build_namespace = orig
+        runlib.argv_of = orig_argv
     obs['out'] = {k: v for k, v in _LAST.items() if k != 'pre_streams'}
     obs['full'] = full_trace(obs.get('raw'), obs['trace'])
     # ground truth: did an exception leave run_tasks because of something the harness planted?
@@ -350,11 +481,15 @@ def run_impl19(case, keep_raw=True):
             ab = 'action of %s raised %s' % (t['name'], _extras(t)['base_exc'])
             break
     obs['aborted'] = ab
+    raw = obs.get('raw') or []
+    obs['runtime_error'] = any(e[0] == 'runtime_error' for e in (raw or obs['trace']))
     return obs
 
 
 def has_plant(case):
-    return any(_extras(t).get('utd_raises') or _extras(t).get('base_exc') for t in case['tasks'])
+    """the case has something the run model M1 has no counterpart for (base acceptance is skipped and counted)"""
+    return any(_extras(t).get('utd_raises') or _extras(t).get('base_exc') or _extras(t).get('lazy_bad')
+               for t in case['tasks'])
 
 
 def effective_exit(obs):
@@ -384,19 +519,22 @@ _RE_FAIL_EO = re.compile(r'^taskid:(\S+) - (\w+)$')
 _RE_SEC = re.compile(r'^(\S+) <(stderr|stdout)>:$')
 
 
-def parse_console(text, ids):
+def parse_console(text, ids, look=None):
+    look = look or (lambda x: ids.get(x, -1))
     toks = []
     prev_sep = False
     for line in text.split('\n'):
         tok = None
         if line.startswith('.  '):
-            tok = ['exec', ids.get(line[3:], -1)]
+            tok = ['exec', look(line[3:])]
         elif line.startswith('-- '):
-            tok = ['utd', ids.get(line[3:], -1)]
+            tok = ['utd', look(line[3:])]
         elif line.startswith('!! '):
-            tok = ['ign', ids.get(line[3:], -1)]
+            tok = ['ign', look(line[3:])]
         elif line == '#' * 40:
             tok = ['sep']
+        elif line == 'Execution aborted.':
+            tok = ['aborted']
         else:
             m = _RE_FAIL.match(line)
             if m and m.group(1) in FAILCLS:
@@ -429,7 +567,9 @@ def parse_json_doc(text, ids):
     for t in data['tasks']:
         if not isinstance(t, dict) or 'name' not in t or 'result' not in t:
             return None, 'malformed task entry %r' % (t,)
-        if (t.get('started') is None) != (t.get('elapsed') is None):
+        if (t.get('started') is None) != (t.get('elapsed') is None) and not (
+                t.get('result') is None and t.get('started') is not None):
+            # (a task that was started and never got a result may have a start time and no elapsed time)
             return None, 'task entry with half timing information %r' % (t,)
         doc.append([ids.get(t['name'], 999999), t['result'], t.get('started') is not None])
     return doc, None
@@ -452,6 +592,12 @@ def c19_request(case, obs):
     req['err'] = obs['err'] or ('crash:planted' if obs.get('aborted') else '')
     if 'doc' in obs:
         req['doc'] = obs['doc'] if obs['doc'] is not None else [[999999, None, False]]
+    req['failVerb'] = case.get('fail_verb') or 0
+    req['forceVerb'] = case.get('cli_verbosity') is not None
+    req['globalVerb'] = case['cli_verbosity'] if case.get('cli_verbosity') is not None else (case.get('verbosity') or 0)
+    req['taskVerb'] = [_extras(t).get('verbosity') for t in case['tasks']]
+    req['runtimeErr'] = bool(obs.get('runtime_error'))
+    req['lazyBad'] = [n for n, t in enumerate(case['tasks']) if _extras(t).get('lazy_bad')]
     return req
 
 
@@ -467,8 +613,12 @@ def py_monitor(case, obs):
     m = case.get('model') or runlib.expand(case)
     res = {}
     kinds = [e[2] for e in full if e[0] == 'failure']
-    exp = 3 if (obs['err'] or obs.get('aborted')) else exit_spec(kinds)
+    exp = 3 if (obs['err'] or obs.get('aborted')) else 2 if obs.get('runtime_error') else exit_spec(kinds)
     res['C19_exit'] = effective_exit(obs) == exp
+    if (obs['err'] or '').startswith('crash:') and not obs.get('aborted') and not obs.get('err_reporter'):
+        # exit 3 through doit's catch-all (a traceback) although nothing was planted that may leave run_tasks: an internal
+        # error, not "an error before execution starts"
+        res['C19_exit'] = False
     ok = True
     seen_status, seen_exec, seen_term, started = set(), set(), set(), set()
     for e in full:
@@ -491,8 +641,10 @@ def py_monitor(case, obs):
             seen_term.add(e[1])
     res['C19_report_order_counts'] = ok
     complete = bool(full) and full[-1] == ['complete']
+    # (a run aborted by a reported runtime error may leave a task announced whose actions could not even be created)
     res['C19_exec_iff_start'] = (not complete) or all(
-        m['noAct'][t] or ((t in seen_exec) == (t in started)) for t in range(m['n']))
+        m['noAct'][t] or ((t in seen_exec) == (t in started))
+        or (obs.get('runtime_error') and t not in seen_term) for t in range(m['n']))
     return res, {'expected_exit': exp, 'failure_kinds': kinds}
 
 
@@ -542,7 +694,7 @@ def observe(case, keep_raw=True):
         if case['runner'] == 'serial' and obs['exit'] == 3 and not obs.get('stderr', '').strip():
             obs['problems'].append('exit code 3 but no diagnostic reached the process\' stderr')
     else:
-        obs['tokens'] = parse_console(text or '', ids)
+        obs['tokens'] = parse_console(text or '', ids, title_lookup(case))
     return obs
 
 
@@ -565,8 +717,11 @@ def failed_monitors(case, obs, ans):
         failed.append('C19_report_order')
     if kind == 'json':
         bad = bool(obs.get('problems'))
-        if lean is not None and obs.get('doc') is not None and (
+        if lean is not None and obs.get('doc') is not None and ans.get('json') != 'raises' and (
                 not isinstance(ans.get('json'), list) or _sorted_doc(ans['json']) != _sorted_doc(obs['doc'])):
+            # ('raises': the model mirrors the present TaskResult.to_dict, which raises for a started task without a
+            #  result -- open finding json-started-without-result; a tree that produces a document there is judged by the
+            #  Lean predicate jsonOK alone)
             bad = True          # (the ORDER of the list is not part of the property: compared as correspondence only)
         if bad and 'C19_json' not in failed:
             failed.append('C19_json')
@@ -625,7 +780,7 @@ def judge(case, obs, ans, base_ans, st, shrink_left):
         if py['C19_exit'] != lean.get('C19_exit', True):
             st.divergence(make_witness(case, obs, ans), 'python and Lean exit-code monitors disagree')
             return 0
-        if kind == 'json' and obs.get('doc') is not None and ans.get('json') != obs['doc']:
+        if kind == 'json' and obs.get('doc') is not None and ans.get('json') != 'raises' and ans.get('json') != obs['doc']:
             st.divergence(make_witness(case, obs, ans),
                           'correspondence JsonReporter: order of the real task list %s differs from the model\'s %s'
                           % (obs['doc'], ans.get('json')))
@@ -655,6 +810,9 @@ def render19(case):
         lines.append('   DOIT_CONFIG verbosity = %s' % case['verbosity'])
     if case.get('out_encoding'):
         lines.append('   encoding of the reporter\'s output stream = %s' % case['out_encoding'])
+    opts = ['%s=%s' % (k, case[k]) for k in ('fail_verb', 'cli_verbosity', 'outfile', 'plugin') if case.get(k) is not None]
+    if opts:
+        lines.append('   command line / config: ' + ' '.join(opts))
     return lines
 
 
@@ -664,6 +822,7 @@ def make_witness(case, obs, ans):
     failed = failed_monitors(case, obs, ans)
     det = dict(det)
     det['exit'] = obs['exit']
+    det['runtime_error'] = bool(obs.get('runtime_error'))
     if obs.get('problems'):
         det['json_problems'] = obs['problems']
     if ans and 'error' not in ans:
@@ -708,6 +867,14 @@ def count19(st, case, obs):
         st.count('extra:global_verbosity=%s' % case['verbosity'])
     if case.get('out_encoding'):
         st.count('extra:out_encoding=%s' % case['out_encoding'])
+    for k in ('fail_verb', 'cli_verbosity', 'outfile', 'plugin'):
+        if case.get(k) is not None:
+            st.count('opt:%s=%s' % (k, case[k]))
+    if case.get('reporter') != 'json' and (case.get('verbosity') or case.get('cli_verbosity')
+                                           or any(_extras(t).get('verbosity') for t in case['tasks'])):
+        st.count('console_family:nonzero_verbosity')
+    if obs.get('runtime_error'):
+        st.count('runtime_error_reported')
     st.count('aborted:%s' % ('no' if not obs.get('aborted') else obs['aborted'].split(' of ')[0]))
     if case['runner'] == 'process':
         ex = [i for i, e in enumerate(obs['full']) if e[0] == 'execute']
@@ -735,11 +902,45 @@ def decorate(c, rng):
         if t['outcome'] == 'failed' and t.get('how', 'return') == 'return' and not _extras(t).get('base_exc') \
                 and rng.random() < 0.3:
             t.setdefault('c19', {})['sigkill'] = rng.choice(['KILL', 'TERM'])
+            if t.get('calc_res') is not None:
+                t['calc_first'] = True
+    # ---- wave 4: what the reporters print / where the reporter comes from / lazily invalid actions / unsaveable values
+    if rng.random() < 0.3:
+        c['fail_verb'] = rng.choice([0, 1, 2, 2])
+    if rng.random() < 0.2:
+        c['cli_verbosity'] = rng.choice([0, 1, 2])
+    if c.get('reporter') != 'json' and rng.random() < 0.25:
+        c['verbosity'] = rng.choice([1, 2])
+    if rng.random() < 0.12:
+        c['plugin'] = True
+    for t in real:
+        if rng.random() < 0.15:
+            t.setdefault('c19', {})['title'] = rng.choice(['custom', 'with_actions', 'nonstr'])
+        if c.get('reporter') != 'json' and rng.random() < 0.15:
+            t.setdefault('c19', {})['verbosity'] = rng.choice([0, 1, 2])
+    r2 = rng.random()
+    if r < 0.08:
+        pass
+    elif r2 < 0.04:
+        t = rng.choice(real)
+        t.setdefault('c19', {})['lazy_bad'] = rng.choice(['int', 'tuple4'])
+        if t['c19'].get('title') == 'with_actions':
+            # (title_with_actions evaluates task.actions: the InvalidTask would then come out of the reporter's skip_* /
+            #  execute_task line instead of the runner; kept out of the random stream, the Lean rendering does not model it)
+            t['c19']['title'] = 'custom'
+    elif r2 < 0.07:
+        cand = [t for t in real if t['outcome'] == 'ok' and not _extras(t).get('base_exc')]
+        if cand:
+            t = rng.choice(cand)
+            t['outcome'] = 'saveerr'
+            t.setdefault('c19', {})['bad_values'] = rng.choice(['set', 'bytes'])
     if c.get('reporter') == 'json' and rng.random() < 0.3:
         c['out_encoding'] = rng.choice(['ascii', 'latin-1'])
         for t in real:
             if not _extras(t).get('base_exc') and rng.random() < 0.7:
                 t.setdefault('c19', {})['prints'] = 'unicode'
+    if not c.get('out_encoding') and rng.random() < 0.15:
+        c['outfile'] = True
     if c.get('reporter') == 'json' and rng.random() < 0.35:
         if rng.random() < 0.5:
             c['verbosity'] = 2
@@ -750,6 +951,8 @@ def decorate(c, rng):
                 t.setdefault('c19', {}).setdefault('prints', True)
                 if c.get('verbosity') is None or rng.random() < 0.3:
                     t['c19']['verbosity'] = rng.choice([2, 2, 1])
+    if 'model' in c:
+        c['model'] = runlib.expand(c)      # outcomes / calc_first may have changed
     return c
 
 
@@ -811,7 +1014,7 @@ def eval_batch(batch):
 # case sources
 # ======================================================================================================
 
-KNOBS = {'p_failed': 0.22, 'p_exc': 0.16, 'p_error': 0.1, 'p_ignored': 0.1, 'p_utd': 0.18, 'p_cont': 0.6,
+KNOBS = {'p_calc_then_fail': 0.15, 'p_failed': 0.22, 'p_exc': 0.16, 'p_error': 0.1, 'p_ignored': 0.1, 'p_utd': 0.18, 'p_cont': 0.6,
          'p_dup_sel': 0.0, 'p_teardown': 0.15, 'n_max': 8}
 
 OUTCOMES = ['ok', 'failed', 'error', 'utd', 'ignored', 'staterr', 'utdraise']
@@ -830,6 +1033,9 @@ def _task(name, oc, **kw):
         t['ignored'] = True
     elif oc == 'utdraise':
         t['c19'] = {'utd_raises': True}
+    elif oc == 'badvals':
+        t['outcome'] = 'saveerr'
+        t['c19'] = {'bad_values': 'set'}
     elif oc == 'staterr':
         t['status'] = 'error'
         t['file_dep'] = ['missing_%s' % name]      # runlib's convention: get_status answers 'error' (missing file_dep)
